@@ -216,7 +216,11 @@ func (w *World) dtFor(t types.Type) *DT {
 			}
 			d.goIndex[i] = len(d.Fields)
 		}
-		d.Fields = append(d.Fields, DTField{Name: f.Name(), Sort: w.SortOf(f.Type()), Type: f.Type()})
+		fname := f.Name()
+		if fname == "_" {
+			fname = fmt.Sprintf("blank%d__", i) // blank fields need distinct accessor names
+		}
+		d.Fields = append(d.Fields, DTField{Name: fname, Sort: w.SortOf(f.Type()), Type: f.Type()})
 	}
 	if opaque {
 		d.Fields = append(d.Fields, DTField{Name: "abs__", Sort: SInt})
